@@ -71,6 +71,8 @@ GENES = [
     ("gL", "MINUS", [([(5, 18)], None, 0)], "rRNA"),
     ("gM", "PLUS", [([(8, 19), (19, 27)], None, 0)], "lncRNA"),
     ("gN", "PLUS", [([(0, 24)], [(0, 24)], 0), ([(0, 12)], [(0, 12)], 0)], "protein_coding"),  # in-frame stop in isoform 1 -> pseudo
+    # three isoforms, only the shortest CDS (GGT TAA GCG) has an in-frame stop; the longest CDS is clean -> the gene is pseudo
+    ("gQ", "PLUS", [([(25, 49)], [(25, 49)], 0), ([(27, 47)], [(28, 40)], 0), ([(30, 45)], [(33, 42)], 0)], "protein_coding"),
 ]
 
 
@@ -244,6 +246,59 @@ def _case(repo, it, S, spec):
     return 3, out
 
 
+def _multi_case(repo, it, S, spec):
+    """several collections in one export: locus tags are unique and step through the whole file"""
+    groups, flavor, step = spec
+    out = []
+    f = repo.fn(f"{W}:collection_to_tbl")
+    F, B = it.enum("CDSFrame"), it.enum("Biotype")
+    nm = {0: "ZERO", 1: "ONE", 2: "TWO"}
+    acs = []
+    for gi, group in enumerate(groups):
+        sname = f"chr{gi + 1}"
+        par = chrom_parent(it, GENOME, seq_id=sname, alphabet="NT_EXTENDED")
+        genes = []
+        for gid, strand, txs, biotype in [g for g in GENES if g[0] in group]:
+            tobjs = []
+            for i, (exons, cds, f0) in enumerate(txs):
+                kw = dict(transcript_id=f"{gid}.{i}", sequence_name=sname, parent_or_seq_chunk_parent=par, transcript_type=B[biotype])
+                if cds:
+                    fr = consistent_frames(cds, strand, f0)
+                    tobjs.append(mk_transcript(it, exons, S[strand], cds, [F[nm[x]] for x in fr], **kw))
+                else:
+                    tobjs.append(mk_transcript(it, exons, S[strand], **kw))
+            genes.append(mk_gene(it, tobjs, gene_id=gid, gene_symbol=gid + "sym", gene_type=B[biotype], sequence_name=sname, parent_or_seq_chunk_parent=par))
+        acs.append(mk_collection(it, genes, None, sequence_name=sname, parent_or_seq_chunk_parent=par))
+    it.overrides["random"] = SeededRandom()
+    handle = []
+    k, v = run(it, f, [acs, handle], dict(translation_table=it.enum("TranslationTable")["DEFAULT"], locus_tag_prefix="LT",
+                                          genbank_flavor=it.enum("GenbankFlavor")[flavor], locus_tag_jump_size=step,
+                                          submitter_lab_name="lab", random_seed=3), None)
+    desc = f"collections {[list(g) for g in groups]} flavor={flavor} step={step}"
+    if k != "ok":
+        return 1, [("multi-collection export", f"{desc}: collection_to_tbl raises {v}", f.qual)]
+    lines = list(handle)
+    headers = [ln for ln in lines if ln.startswith(">Features")]
+    if headers != [f">Features chr{i + 1}" for i in range(len(groups))]:
+        out.append(("multi-collection headers", f"{desc}: headers {headers}", f.qual))
+    gene_tags, child_tags = [], []
+    cur = None
+    for ln in lines:
+        cols = ln.split("\t")
+        if ln.startswith("\t\t\t"):
+            if cols[3] == "locus_tag":
+                (gene_tags if cur == "gene" else child_tags).append(cols[4])
+        elif len(cols) >= 3 and cols[2]:
+            cur = cols[2]
+    ngenes = sum(len(g) for g in groups)
+    want = [f"LT_{step * (i + 1)}" for i in range(ngenes)]
+    if gene_tags != want:
+        out.append(("locus tags across collections", f"{desc}: gene locus tags {gene_tags}; unique tags stepping by {step} through the whole file are {want}", f.qual))
+    if any(t not in gene_tags for t in child_tags):
+        out.append(("locus tags across collections", f"{desc}: a child feature carries a locus tag no gene has", f.qual))
+    return 1, out
+
+
 _W = {}
 
 
@@ -273,12 +328,15 @@ def rk_tbl(ctx):
     ctx.r.floor("C17.RK", "tbl export cases", len(specs), 25)
     from ..par import pmap
     results = pmap(_runner(ctx.repo, _case), specs, min_items=4)
+    multi = [((("gA", "gB", "gK"), ("gH", "gL"), ("gJ",)), fl, st) for fl in ("EUKARYOTIC", "PROKARYOTIC") for st in (5, 3)]
+    mresults = pmap(_runner(ctx.repo, _multi_case), multi, min_items=4)
     # an unseeded export (seed None) is allowed to differ between runs
     cleaned = []
     for spec, (n, outs) in zip(specs, results):
         if spec[3] is None:
             outs = [o for o in outs if not o[0].startswith("reproducible")]
         cleaned.append((n, outs))
+    cleaned += mresults
     _report(ctx, "C17.RK", cleaned, [(f"{W}:collection_to_tbl", "header, locus tags, reproducibility"),
                                      (f"{W}:TblFeature._location_to_str", "1-based inclusive blocks 5'->3'"),
                                      (f"{W}:CDSTblFeature.__init__", "partial marks / codon_start / pseudo"),
